@@ -29,9 +29,9 @@ Proof. exact headers_before_handshake_desync. Qed.
 Print Assumptions C14_headers_before_handshake_desync.
 
 (* the primitive behind "no handler" and "discard the remainder": DiscardInput drops exactly the
-   number of bytes it is asked to, whatever the chunk size (regenerated from messages.go) *)
-Theorem C14_discard_exact : forall n, discard_input (Z.to_N discard_chunk) n = n.
-Proof. intros n. apply discard_input_exact. reflexivity. Qed.
+   number of bytes it is asked to, whatever the (positive) chunk size it reads with *)
+Theorem C14_discard_exact : forall chunk n, 0 < chunk -> discard_input chunk n = n.
+Proof. exact discard_input_exact. Qed.
 Print Assumptions C14_discard_exact.
 
 (* a ready node is stopped by a message only if the message violates the protocol: a second
